@@ -80,7 +80,19 @@ type OutFile struct {
 	Size    int64   `json:"size"`
 }
 
+// ArgMod: a call changed an argument it was passed by reference.
+type ArgMod struct {
+	What   string   `json:"what"`
+	Before []string `json:"before"`
+	After  []string `json:"after"`
+}
+
 type BuildObs struct {
+	// the []string handed to Build (the harness keeps ONE slice per distinct
+	// target list of a history and hands the very same slice to every build
+	// that asks for it) or the *Config handed to NewBuilder, when changed
+	ArgMods []ArgMod `json:"arg_mods,omitempty"`
+
 	Ok    bool      `json:"ok"`
 	Err   string    `json:"err,omitempty"`
 	Exec  []string  `json:"exec"`
@@ -365,6 +377,9 @@ type builders struct {
 	keep bool
 	work string
 	m    map[bool]*caco3.Builder
+	cfg  map[*caco3.Builder][2]*caco3.Config // the Config handed over, and a copy taken before
+	held map[string][]string                 // the caller's target slices, by their intended contents
+	mods []ArgMod                            // what the last realBuild found changed
 }
 
 func (bs *builders) reset() { bs.m = map[bool]*caco3.Builder{} }
@@ -379,9 +394,17 @@ func (bs *builders) get(root string, always bool) (*caco3.Builder, string) {
 	if bs != nil && bs.work != "" {
 		workDir = filepath.Join(root, "src", filepath.FromSlash(bs.work))
 	}
-	b, err := caco3.NewBuilder(workDir, &caco3.Config{Root: root, AlwaysRebuild: always})
+	cfg := &caco3.Config{Root: root, AlwaysRebuild: always}
+	cfg0 := *cfg
+	b, err := caco3.NewBuilder(workDir, cfg)
 	if err != nil {
 		return nil, "new builder: " + err.Error()
+	}
+	if bs != nil {
+		if bs.cfg == nil {
+			bs.cfg = map[*caco3.Builder][2]*caco3.Config{}
+		}
+		bs.cfg[b] = [2]*caco3.Config{cfg, &cfg0}
 	}
 	if _, errs := b.ReadWorkspace(); errs != nil {
 		return nil, "workspace: " + errs[0].Error()
@@ -401,14 +424,40 @@ func realBuild(bs *builders, root string, targets []string, always bool) (ok boo
 	if b == nil {
 		return false, msg, exec
 	}
+	spelled := append([]string{}, targets...)
 	if bs != nil && bs.work != "" {
-		var ts []string
-		for _, t := range targets {
-			ts = append(ts, spell(bs.work, t))
+		for i, t := range targets {
+			spelled[i] = spell(bs.work, t)
 		}
-		targets = ts
 	}
-	errs := b.Build(targets)
+	arg := spelled
+	if bs != nil {
+		if bs.held == nil {
+			bs.held = map[string][]string{}
+		}
+		key := strings.Join(spelled, "\x00")
+		if h, ok := bs.held[key]; ok {
+			arg = h // the caller's own slice for this target list, as earlier calls left it
+		} else {
+			bs.held[key] = arg
+		}
+		bs.mods = nil
+	}
+	before := append([]string{}, arg...)
+	errs := b.Build(arg)
+	if bs != nil {
+		same := len(before) == len(arg)
+		for i := 0; same && i < len(arg); i++ {
+			same = before[i] == arg[i]
+		}
+		if !same {
+			bs.mods = append(bs.mods, ArgMod{What: "Build(rules []string)", Before: before, After: append([]string{}, arg...)})
+		}
+		if c, ok := bs.cfg[b]; ok && *c[0] != *c[1] {
+			bs.mods = append(bs.mods, ArgMod{What: "NewBuilder(*Config)", Before: []string{fmt.Sprintf("%+v", *c[1])},
+				After: []string{fmt.Sprintf("%+v", *c[0])}})
+		}
+	}
 	for _, line := range strings.Split(logBuf.String(), "\n") {
 		if strings.HasPrefix(line, "BUILD ") {
 			exec = append(exec, strings.TrimPrefix(line, "BUILD "))
@@ -578,6 +627,7 @@ func runCase(c *Case, withClean bool) {
 			o := &BuildObs{}
 			waitTick(root)
 			o.Ok, o.Err, o.Exec = realBuild(bs, root, op.Targets, op.Always)
+			o.ArgMods = bs.mods
 			o.Outs = snapshotOut(root)
 			for _, f := range o.Outs {
 				if t := time.Unix(0, f.Mtime); t.After(newestOut) {
